@@ -58,7 +58,9 @@ Refs == { [id |-> 1, at |-> "F1", to |-> "p1"], [id |-> 2, at |-> "F1", to |-> "
           \* a class nested in the class, reached through it (c1.c2) in an inferred declaration
           [id |-> 30, at |-> "F2", to |-> "o3"],
           \* an enum whose second member is read through .value (the value is folded into the output)
-          [id |-> 31, at |-> "F2", to |-> "e2"], [id |-> 32, at |-> "F2", to |-> "v1"] }
+          [id |-> 31, at |-> "F2", to |-> "e2"], [id |-> 32, at |-> "F2", to |-> "v1"],
+          \* the class as base of a derived class
+          [id |-> 33, at |-> "mod", to |-> "c1"] }
 
 \* ---- LEGB resolution of slot x from scope s under assignment id : binders -> slots
 RECURSIVE Resolve(_, _, _, _)
@@ -109,6 +111,8 @@ Pools == [
   prechainrev |-> <<"abcdefghijklmnopqrstuvwxyzabcdEfgh", "abcdefghijklmnopqrstuvwxyzabcdEfg", "abcdefghijklmnopqrstuvwxyzabcdEf", "abcdefghijklmnopqrstuvwxyzabcdE", "abcdefghijklmnopqrstuvwxyzabcd", "abcdefghijklmnopqrstuvwxyzabc", "abcdefghijklmnopqrstuvwxyzab", "abcdefghijklmnopqrstuvwxyza", "abcdefghijklmnopqrstuvwxyz", "abcdefghijklmnopqrstuvwxy", "abcdefghijklmnopqrstuvwx", "abcdefghijklmnopqrstuvw", "abcdefghijklmnopqrstuv", "abcdefghijklmnopqrstu", "abcdefghijklmnopqrst", "abcdefghijklmnopqrs", "abcdefghijklmnopqr", "abcdefghijklmnopq", "abcdefghijklmnop", "abcdefghijklmno", "abcdefghijklmn", "abcdefghijklm", "abcdefghijkl", "abcdefghijk", "abcdefghij", "abcdefghi", "abcdefgh", "abcdefg", "abcdef", "abcde", "abcd", "abc", "ab", "a">>,
   \* names that begin with the names of builtin types and of the words the output language uses for them
   typewords |-> <<"int_", "intx", "str_", "strs", "bool_", "float_", "list_", "Dict_", "dict_", "tuple_", "void_", "auto_", "std_", "double_", "char_", "long_", "size_t_", "string_", "vector_", "map_", "None_", "self_", "this_", "const_", "type_", "float_x", "tuple_x", "List_x", "int_y", "str_y", "Enum_x", "int_z", "str_z", "bool_z">>,
+  \* names that END with the names the code base knows types by (Generic, Enum, ...)
+  suffixes |-> <<"aGeneric", "bEnum", "cClass", "dType", "eList", "fDict", "gSelf", "hCallable", "iIterator", "NonGeneric", "kUnion", "lOptional", "mTuple", "nAny", "oNone", "pInt", "qStr", "rBool", "sFloat", "tObject", "uEmbed", "vCP", "wCRef", "xCSP", "yTypeVar", "zTypeAlias", "aaProtocol", "InnerClass", "acMeta", "adABC", "KindEnum", "afIntEnum", "agEnumMeta", "ahGeneric_">>,
   reverse |-> <<"zqs", "zqr", "zqq", "zqp", "zqo", "zqn", "zqm", "Zql", "zqk", "zqj", "zqi", "zqh", "zqg", "zqf", "zqe", "zqd", "zqc", "zqb", "zqa", "zzb", "zza", "zzc", "zzd", "zze", "zzf", "zzg", "zzh", "Zzi", "zzj", "zzk", "Zzl", "zzm", "zzn", "zzo">> ]
 IndexOf(b) == Idx[b]
 NameOf(id, pool, b) == Pools[pool][IndexOf(id[b])]          \* the name of binder b = pool entry of its slot
@@ -155,7 +159,9 @@ Tokens == <<
   T("\t"), B("v1"), T(" = "), B("e2"), T("."), B("m5"), T(".value\n"),
   T("\t"), B("r1"), T(" = "), B("f1"), T("("), B("p5"), T(", "), B("s1"), T(")\n"),
   T("\t"), B("k1"), T(" = apply_fn(lambda "), B("w1"), T(": "), B("w1"), T(" + "), B("p5"), T(", 2)\n"),
-  T("\treturn "), B("o1"), T("."), B("m1"), T("("), B("f1"), T("("), B("p5"), T(", "), B("s1"), T(")) + "), B("k1"), T(" + "), B("o2"), T("."), B("m1"), T("("), B("r1"), T(") + "), B("o3"), T("."), B("m3"), T("() + "), B("v1"), T("\n")
+  T("\treturn "), B("o1"), T("."), B("m1"), T("("), B("f1"), T("("), B("p5"), T(", "), B("s1"), T(")) + "), B("k1"), T(" + "), B("o2"), T("."), B("m1"), T("("), B("r1"), T(") + "), B("o3"), T("."), B("m3"), T("() + "), B("v1"), T("\n"),
+  \* a class derived from the class, which reads a field it inherits: the base is whatever the class is called
+  T("\nclass Sub_("), B("c1"), T("):\n\tdef sub_(self) -> int:\n\t\treturn self."), B("a1"), T("\n")
 >>
 RECURSIVE Render(_, _, _)
 Render(id, pool, i) == IF i > Len(Tokens) THEN ""
